@@ -38,6 +38,13 @@ def obligations(tier):
     for p in range(12):
         obls.append(CH("add_add_then_any_p%02d" % p, H, "seq_aao", t, mode="E1s", functions=F, stubs=[CLOCK], env={"VERIF_PART": str(p)},
                        bounds="add on two different selectors (pair index %% 12 == %d of 36 pairs, same or different marking of 4) then any of 4 ops on any of 9 selectors" % p))
+    for p in range(10):
+        obls.append(CH("from_uncompressed_markings_p%02d" % p, H, "seq_raw", t, mode="E1s", functions=F, stubs=[CLOCK], env={"VERIF_PART": str(p)},
+                       bounds="start: raw marking list %d of 5 (duplicate selectors / overlapping entries, as parsed content may carry) on a %s; any op x 9 selectors x 4 markings, "
+                              "then %s" % (p // 2, "dict" if p % 2 == 0 else "parsed object", "remove/clear x 2 selectors" if tier == "quick" else "any op x 4 selectors x 2 markings")))
+    for p in range(16):
+        obls.append(CH("granular_sequences_on_objects_p%02d" % p, H, "seq2_objects", t, mode="E1s", functions=F, stubs=[CLOCK], env={"VERIF_PART": str(p)},
+                       bounds="as granular_sequences (2 steps) but starting from a parsed Malware object instead of a dict; first op %d, marking %d" % (p // 4, p % 4)))
     obls.append(CH("object_level_sequences", H, "objseq", t, mode="E1s", functions=F, stubs=[CLOCK],
                    bounds="one granular add (any of 9 selectors) then every sequence of 3 object-level add/remove/clear/set over 3 marking ids"))
     obls.append(CH("ancestry_by_path_components", H, "ancestry", 240 if tier == "quick" else 900, functions=F[6:9] + F[-3:], stubs=[CLOCK],
